@@ -9,64 +9,38 @@ namespace Utf8
 
 def isCont (b : UInt8) : Bool := 128 ≤ b.toNat && b.toNat ≤ 191
 
-/-- second byte admissible after a 3-byte lead `v` -/
-def ok3 (v : Nat) (b1 : UInt8) : Bool :=
-  let w := b1.toNat
-  if v = 224 then 160 ≤ w && w ≤ 191
-  else if v = 237 then 128 ≤ w && w ≤ 159
-  else 128 ≤ w && w ≤ 191
-
-/-- second byte admissible after a 4-byte lead `v` -/
-def ok4 (v : Nat) (b1 : UInt8) : Bool :=
-  let w := b1.toNat
-  if v = 240 then 144 ≤ w && w ≤ 191
-  else if v = 244 then 128 ≤ w && w ≤ 143
-  else 128 ≤ w && w ≤ 191
-
 inductive Err
   | invalid (upTo len : Nat)
   | incomplete (upTo : Nat)
 deriving DecidableEq, Repr
 
-/-- `none` = valid; otherwise what `Utf8Error` reports. `i` = index of the head of the list. -/
-def scan (bs : Bytes) (i : Nat) : Option Err :=
-  match bs with
-  | [] => none
-  | b0 :: rest =>
-    let v := b0.toNat
-    if v < 128 then scan rest (i + 1)
-    else if 194 ≤ v ∧ v ≤ 223 then
-      match rest with
-      | [] => some (.incomplete i)
-      | b1 :: r1 => if isCont b1 then scan r1 (i + 2) else some (.invalid i 1)
-    else if 224 ≤ v ∧ v ≤ 239 then
-      match rest with
-      | [] => some (.incomplete i)
-      | b1 :: r1 =>
-        if ok3 v b1 then
-          match r1 with
-          | [] => some (.incomplete i)
-          | b2 :: r2 => if isCont b2 then scan r2 (i + 3) else some (.invalid i 2)
-        else some (.invalid i 1)
-    else if 240 ≤ v ∧ v ≤ 244 then
-      match rest with
-      | [] => some (.incomplete i)
-      | b1 :: r1 =>
-        if ok4 v b1 then
-          match r1 with
-          | [] => some (.incomplete i)
-          | b2 :: r2 =>
-            if isCont b2 then
-              match r2 with
-              | [] => some (.incomplete i)
-              | b3 :: r3 => if isCont b3 then scan r3 (i + 4) else some (.invalid i 3)
-            else some (.invalid i 2)
-        else some (.invalid i 1)
-    else some (.invalid i 1)
-termination_by bs.length
-decreasing_by all_goals (simp; try omega)
+/-- decoder state between bytes: between characters, or inside one that started at `start`,
+of which `seen` bytes have been read, `remaining` are still due, the next one within `lo..hi` -/
+inductive State
+  | idle
+  | inChar (start seen remaining lo hi : Nat)
 
-def validate (bs : Bytes) : Option Err := scan bs 0
+/-- `none` = valid; otherwise what `Utf8Error` reports (`valid_up_to`, `error_len`).
+`i` = index of the head of the list. -/
+def scan : Bytes → Nat → State → Option Err
+  | [], _, .idle => none
+  | [], _, .inChar start _ _ _ _ => some (.incomplete start)
+  | b :: rest, i, .idle =>
+    let v := b.toNat
+    if v < 128 then scan rest (i + 1) .idle
+    else if 194 ≤ v ∧ v ≤ 223 then scan rest (i + 1) (.inChar i 1 1 128 191)
+    else if 224 ≤ v ∧ v ≤ 239 then
+      scan rest (i + 1) (.inChar i 1 2 (if v = 224 then 160 else 128) (if v = 237 then 159 else 191))
+    else if 240 ≤ v ∧ v ≤ 244 then
+      scan rest (i + 1) (.inChar i 1 3 (if v = 240 then 144 else 128) (if v = 244 then 143 else 191))
+    else some (.invalid i 1)
+  | b :: rest, i, .inChar start seen remaining lo hi =>
+    if lo ≤ b.toNat ∧ b.toNat ≤ hi then
+      if remaining ≤ 1 then scan rest (i + 1) .idle
+      else scan rest (i + 1) (.inChar start (seen + 1) (remaining - 1) 128 191)
+    else some (.invalid start seen)
+
+def validate (bs : Bytes) : Option Err := scan bs 0 .idle
 
 def valid (bs : Bytes) : Bool := (validate bs).isNone
 
